@@ -148,7 +148,8 @@ def ev(t, env):
 def audit_paths():
     """Returns a result dict: ok, evaluations, failures."""
     from .models import PathModel2
-    axs = PathModel2.axioms(object.__new__(PathModel2))
+    _pm = object.__new__(PathModel2)
+    axs = PathModel2.axioms(_pm) + PathModel2.lemma_axioms(_pm)
     fails = []
     n = 0
     for i, ax in enumerate(axs):
